@@ -71,21 +71,6 @@ func TestGen(t *testing.T) {
 }
 `
 
-// isF43: the generator's code for a TL2-origin dictionary whose value type is a Maybe calls WriteTL1Boxed/ReadTL1Boxed on
-// the Maybe type, which has neither (known finding F43).
-func isF43(msg string) bool {
-	return strings.Contains(msg, "has no field or method WriteTL1Boxed") || strings.Contains(msg, "has no field or method ReadTL1Boxed")
-}
-
-func findingKnown(id string) bool {
-	for _, f := range loadFindings() {
-		if f.ID == id && f.Status == "known" {
-			return true
-		}
-	}
-	return false
-}
-
 type pairResult struct {
 	Binary  string
 	Refused bool   // migration did not accept the pair
@@ -283,6 +268,9 @@ func init() {
 			if b, err := os.ReadFile(tls + "cases.tl"); err == nil {
 				jobs = append(jobs, job{"pcases", string(b), []string{"*"}})
 			}
+			if b, err := os.ReadFile("/verif/schemas/sink.tl"); err == nil {
+				jobs = append(jobs, job{"psink", string(b), []string{"*", "sink."}})
+			}
 			nrand, perSchema := 1, 1
 			if tier == "thorough" {
 				nrand, perSchema = 6, 2
@@ -312,9 +300,8 @@ func init() {
 					if err != nil {
 						return nil, err
 					}
-					if res.Broken != "" && isF43(res.Broken) && findingKnown("F43") {
-						fmt.Printf("KNOWN-FINDING: property=%s F43 (pair %s skipped): code generated from the migrated schema does not compile (dictionary of Maybe)\n", id, name)
-						continue
+					if res.Broken != "" && os.Getenv("VERIF_DEBUG") != "" {
+						fmt.Println(res.Broken)
 					}
 					if res.Broken != "" {
 						path := writePairBuildReplay(id, name, j.text, wl, res.Broken)
